@@ -31,6 +31,16 @@ def judge_c02(case, impl, model, spec):
         return ("violation", r)
     return ("correspondence", "implementation differs from the model although every PES payload is delivered exactly")
 
+def mk_history_judge(prop):
+    def j(case, impl, model, spec):
+        v = _trace.history_judge(case, impl, prop)
+        if v[0] == "violation": return ("violation", v[1])
+        if v[0] == "known": return ("known", v[1])
+        if impl != model:
+            return ("correspondence", "implementation differs from the model although the routing predicate holds on its trace")
+        return ("ok", None)
+    return j
+
 COMMON_TRUSTED = [
     "Coq 8.16.1 kernel (coqc); vm_compute for finite sweeps and case evaluation; no native_compute",
     "axioms: none (every property theorem is 'Closed under the global context')",
@@ -95,6 +105,47 @@ def r_c14(toks):
     return f"{'run_pes' if toks[0] == 'PES' else 'run_ppc'} false {hex_to_coq(toks[1])}"
 
 PROPS = {
+    "C05": dict(
+        props_files=["Props/C05.v"],
+        suites=["C05"],
+        render=r_stream,
+        judge=mk_history_judge("C05"),
+        judge_always=True,
+        rule="histories of PAT / PMT versions on 1..3 programs: programs added, removed, reordered; streams added, removed, re-typed, "
+             "reversed; single- and multi-packet PMTs; re-listed programs repeating their PMT; a network (program_number 0) entry in a "
+             "fifth; after every step one probe packet on every PID of interest; every 23rd history shares an elementary PID between "
+             "two programs (finding F7); the routing the latest valid tables call for is recomputed from the transmitted tables and "
+             "compared with the request each probe's handler was built from; distinct = distinct case lines",
+        trusted=["harness/src/suites/hist.rs (history generator and its annotations)", "bin/trace.py history_judge (ideal routing table; known-class predicates F2 / F7 / F8)"],
+        assumptions=["single-section tables marked current; one table per PID (current_next_indicator and section_number are ignored by the processors)"],
+    ),
+    "C10": dict(
+        props_files=["Props/C10.v"],
+        suites=["C10"],
+        render=r_stream,
+        judge=mk_history_judge("C10"),
+        judge_always=True,
+        rule="after the tables are installed, 1..3 rounds of: an open PES packet whose transport packets straddle 1..6 (thorough 40) "
+             "repetitions of the PAT / a PMT (single- and multi-packet), a PMT version change and change back now and then; every 17th "
+             "history changes the PAT version first (finding F8); no request may be caused by a repetition and the ES call-back protocol "
+             "must hold; distinct = distinct case lines",
+        trusted=["harness/src/suites/hist.rs", "bin/trace.py history_judge"],
+        assumptions=["repetitions are undamaged transmissions (a malformed start packet resets the chain's version memory; that is C11's domain)"],
+    ),
+    "C11": dict(
+        props_files=["Props/C11.v"],
+        suites=["C11"],
+        render=r_stream,
+        judge=mk_history_judge("C11"),
+        judge_always=True,
+        rule="a PAT or PMT transmission (single- or multi-packet; a quarter of the time the very first copy in the stream) damaged by "
+             "1..3 bit flips anywhere in the section, a dropped packet, or truncation by the next start; then 1..3 intact copies with "
+             "the same version and one with a bumped version, probes after each; an intact table whose version differs from the one "
+             "last applied must be applied, unless its version equals that of a section started but not applied since (finding F2); "
+             "distinct = distinct case lines",
+        trusted=["harness/src/suites/hist.rs", "bin/trace.py history_judge / started_version (known class F2)"],
+        assumptions=[],
+    ),
     "C02": dict(
         props_files=["Props/C02.v"],
         suites=["C02"],
